@@ -12,6 +12,7 @@
 package verifsimrt
 
 import (
+	"os"
 	"encoding/base64"
 	"encoding/json"
 	"errors"
@@ -244,9 +245,11 @@ func Run(c Config, main func()) (res Result) {
 	oldLocal := time.Local
 	time.Local = time.FixedZone(fmt.Sprintf("SIM%+d", c.TZOffsetMin), c.TZOffsetMin*60)
 	defer func() { time.Local = oldLocal }()
+	inSetup = true
 	for _, f := range resets {
 		f()
 	}
+	inSetup = false
 	log.SetOutput(Stderr)
 	log.SetFlags(0)
 	if c.GCOff {
@@ -285,6 +288,9 @@ func Run(c Config, main func()) (res Result) {
 		// a goroutine of the program is blocked where the simulator cannot see it (an
 		// unmodelled primitive): this process can no longer be trusted to isolate runs
 		Tainted = "a goroutine started by the program did not end with the run (blocked outside the simulator's control)"
+		buf := make([]byte, 1<<16)
+		buf = buf[:runtime.Stack(buf, true)]
+		fmt.Fprintf(os.Stderr, "verifsimrt: goroutines at the end of the run:\n%s\n", buf)
 	}
 	running = false
 	mu.Lock()
@@ -316,6 +322,11 @@ func (s *Stream) Write(p []byte) (int, error) {
 	if len(p) == 0 {
 		return 0, nil // writing nothing is not output
 	}
+	if exited {
+		// os.Exit does not run deferred functions and stops every goroutine; the simulated
+		// exit unwinds them instead, so whatever they still write never happened
+		return len(p), nil
+	}
 	record(s.kind, string(p), int64(len(p)))
 	seamPoint()
 	return len(p), nil
@@ -323,6 +334,9 @@ func (s *Stream) Write(p []byte) (int, error) {
 func (s *Stream) WriteString(p string) (int, error) {
 	if len(p) == 0 {
 		return 0, nil
+	}
+	if exited {
+		return len(p), nil
 	}
 	record(s.kind, p, int64(len(p)))
 	seamPoint()
